@@ -1514,3 +1514,117 @@ func rangeFuncs(fn *ssa.Function) []rangeFunc {
 	}
 	return out
 }
+
+// paramOf returns the parameter of fn that plays a given part: the one of that name if there is one (parameters move
+// when one is added, dropped or turned into a field / a receiver), else the one at the position it had in the pinned
+// tree — provided the function still has as many parameters as it had there. Otherwise the rule that asks cannot
+// tell the parameters apart and is undecided for this tree.
+func paramOf(fn *ssa.Function, name string, idx, count int) *ssa.Parameter {
+	for _, prm := range fn.Params {
+		if prm.Name() == name {
+			return prm
+		}
+	}
+	if len(fn.Params) == count && idx < count {
+		return fn.Params[idx]
+	}
+	undecided("parameter %q of %s cannot be identified: the function's parameter list changed (%d parameters, none of that name)", name, shortName(fn), len(fn.Params))
+	return nil
+}
+
+// originsThroughCallers is origins, with a parameter of an unexported module function (or of a method that
+// only the module calls) replaced by the origins of the corresponding argument at every call site — the
+// value a caller now computes and hands in. A parameter of a function without known call sites stays a leaf.
+func (p *Prog) originsThroughCallers(v ssa.Value, opt OriginOpts, depth int) []ssa.Value {
+	var out []ssa.Value
+	seen := map[ssa.Value]bool{}
+	var walk func(v ssa.Value, d int)
+	walk = func(v ssa.Value, d int) {
+		for _, o := range p.origins(v, opt) {
+			if seen[o] {
+				continue
+			}
+			seen[o] = true
+			prm, ok := o.(*ssa.Parameter)
+			if !ok || d <= 0 || prm.Parent() == nil || token.IsExported(prm.Parent().Name()) {
+				out = append(out, o)
+				continue
+			}
+			fn := prm.Parent()
+			idx := -1
+			for i, q := range fn.Params {
+				if q == prm {
+					idx = i
+				}
+			}
+			callers := p.Callers(fn)
+			if idx < 0 || len(callers) == 0 {
+				out = append(out, o)
+				continue
+			}
+			for _, cs := range callers {
+				args := cs.Common().Args
+				if cs.Common().IsInvoke() || idx >= len(args) {
+					out = append(out, o)
+					continue
+				}
+				walk(args[idx], d-1)
+			}
+		}
+	}
+	walk(v, depth)
+	return out
+}
+
+// throughCallee: a value that is one result of a call of a local closure stands for what that
+// function returns in that position, with the function's parameters replaced by the call's arguments
+// (`return failed(err)` with failed := func(err error) (T, U, error) { cleanup(); return nil, nil, err }).
+// Anything else stands for itself.
+func throughCallee(v ssa.Value) []ssa.Value {
+	ex, ok := v.(*ssa.Extract)
+	if !ok {
+		return []ssa.Value{v}
+	}
+	cl, ok := ex.Tuple.(*ssa.Call)
+	if !ok {
+		return []ssa.Value{v}
+	}
+	callee := cl.Call.StaticCallee()
+	if callee == nil || !inModule(callee) || len(callee.Blocks) == 0 || callee.Parent() == nil {
+		return []ssa.Value{v} // (named functions are roles of their own, or have been inlined: only local closures)
+	}
+	args := cl.Call.Args
+	var out []ssa.Value
+	for _, b := range callee.Blocks {
+		if len(b.Instrs) == 0 {
+			continue
+		}
+		r, isRet := b.Instrs[len(b.Instrs)-1].(*ssa.Return)
+		if !isRet || ex.Index >= len(r.Results) {
+			continue
+		}
+		res := r.Results[ex.Index]
+		if prm, isP := res.(*ssa.Parameter); isP {
+			for i, q := range callee.Params {
+				if q == prm && i < len(args) {
+					res = args[i]
+				}
+			}
+		}
+		out = append(out, res)
+	}
+	if len(out) == 0 {
+		return []ssa.Value{v}
+	}
+	return out
+}
+
+// allNilConst: every value the operand stands for (throughCallee) is the nil constant.
+func allNilConst(v ssa.Value) bool {
+	for _, x := range throughCallee(v) {
+		if !isNilConst(x) {
+			return false
+		}
+	}
+	return true
+}
